@@ -23,7 +23,7 @@ ASSUMPTIONS = [
 ]
 TOLERANCES = {"point": "(1e-9 + 1e-15 * (rmax/rmin)^2) * S (S = max |coordinate|, effective radii)", "point (lambda >= 1 - 1e-12: scaled-up / exact fit)": "1e-6 * S", "implicit equation": "1e-7 (1e-5 on the scaled-up class)"}
 MANDATORY_LABELS = {
-    "quick": ["cls:scaled-up", "cls:exact-fit", "cls:near-fit", "cls:ample", "cls:general", "cls:coincident", "cls:zero-radius", "cls:negative-radius", "flags:00", "flags:01", "flags:10", "flags:11", "route:ctor", "route:path", "rot:multiple-of-90", "rot:beyond-360"],
+    "quick": ["cls:scaled-up", "cls:exact-fit", "cls:near-fit", "cls:ample", "cls:general", "cls:coincident", "cls:zero-radius", "cls:negative-radius", "flags:00", "flags:01", "flags:10", "flags:11", "route:ctor", "route:path", "route:complex", "route:kwargs", "route:path.arc", "route:relative", "rot:multiple-of-90", "rot:beyond-360"],
 }
 MANDATORY_LABELS["thorough"] = MANDATORY_LABELS["quick"]
 
@@ -46,7 +46,7 @@ def decode(d):
                 arc[2] = -abs(arc[2])
             if which & 2:
                 arc[3] = -abs(arc[3])
-    return {"arc": arc, "cls": cls, "route": d.choice(["ctor", "ctor", "path"])}
+    return {"arc": arc, "cls": cls, "route": d.choice(["ctor", "ctor", "path", "path", "complex", "kwargs", "path.arc", "relative"])}
 
 
 def parts(tier):
@@ -57,8 +57,26 @@ def parts(tier):
 def build(case):
     se = lib.L()
     _, s, rx, ry, rot, fa, fs, e = case["arc"]
-    if case["route"] == "ctor":
+    route = case["route"]
+    if route == "ctor":
         return se.Arc(se.Point(s[0], s[1]), rx, ry, rot, bool(fa), bool(fs), se.Point(e[0], e[1]))
+    if route == "complex":  # the six-argument form with a complex radius
+        return se.Arc(se.Point(s[0], s[1]), complex(rx, ry), rot, bool(fa), bool(fs), se.Point(e[0], e[1]))
+    if route == "kwargs":
+        return se.Arc(start=se.Point(s[0], s[1]), radius=complex(rx, ry), rotation=rot, arc_flag=bool(fa), sweep_flag=bool(fs), end=se.Point(e[0], e[1]))
+    if route == "path.arc":  # the builder method of Path
+        p = se.Path()
+        p.move((s[0], s[1]))
+        p.arc(rx, ry, rot, fa, fs, (e[0], e[1]))
+        if len(p) != 2 or lib.kind_of(p[1]) != "A":
+            raise core.HarnessError("Path().move().arc() did not give [Move, Arc]: %r" % [lib.kind_of(x) for x in p])
+        return p[1]
+    if route == "relative":  # the relative command after a move to the start point
+        text = "M%r,%r a%r,%r %r %d,%d %r,%r" % (s[0], s[1], rx, ry, rot, fa, fs, e[0] - s[0], e[1] - s[1])
+        p = se.Path(text)
+        if len(p) != 2 or lib.kind_of(p[1]) != "A":
+            raise core.HarnessError("Path(%r) did not give [Move, Arc]" % text)
+        return p[1]
     text = "M%r,%r A%r,%r %r %d,%d %r,%r" % (s[0], s[1], rx, ry, rot, fa, fs, e[0], e[1])
     p = se.Path(text)
     if len(p) != 2 or lib.kind_of(p[1]) != "A":
@@ -79,6 +97,9 @@ def check(case):
     if abs(rot) > 360.0:
         o.label("rot:beyond-360")
     arc = build(case)
+    if case["route"] == "relative" and s != e:
+        # the end point the relative command denotes: start + written offset, in the arithmetic the command prescribes
+        e = [s[0] + float(repr(e[0] - s[0])), s[1] + float(repr(e[1] - s[1]))]
     ref = arcref.endpoint_to_centre(s[0], s[1], rx, ry, rot, fa, fs, e[0], e[1])
     chord = math.hypot(e[0] - s[0], e[1] - s[1])
     S0 = max(abs(s[0]), abs(s[1]), abs(e[0]), abs(e[1]), 1e-3)
